@@ -1079,12 +1079,11 @@ def op_misc(P):
             P.single = True
         cp = bool(rng.random() < 0.7)
         P.log[-1][1].update(dtype=dt, copy=cp)
+        same = np.dtype(dt) == a.arr.dtype
         r = a.arr.astype(dt, copy=cp)
         exp = a.dense.astype(dt)
-        if not cp:
-            a.dense = exp
-            return {'modified': [a], 'retkind': 'inplace'}
-        return {'new': [Slot(r, exp, a.labels, a.legs, a.qtotal, kind)], 'retkind': 'deep'}
+        # astype never changes `a`; without copy and without a change of type the blocks are shared (documented)
+        return {'new': [Slot(r, exp, a.labels, a.legs, a.qtotal, kind)], 'retkind': 'shallow' if (same and not cp) else 'deep'}
     if kind == 'zeros_like':
         return {'new': [Slot(a.arr.zeros_like(), np.zeros_like(a.dense), a.labels, a.legs, a.qtotal, kind)], 'retkind': 'deep'}
     if kind == 'ipurge_zeros':
